@@ -20,6 +20,26 @@ def tname(t):
     return f't{t}'
 
 
+class Timeout(Exception):
+    pass
+
+
+def call_with_timeout(sec, fn, *args):
+    """run fn(*args) in this (worker main) thread; raise Timeout if it does not return in `sec` seconds"""
+    import signal
+
+    def handler(signum, frame):
+        raise Timeout(f'no result after {sec}s')
+
+    old = signal.signal(signal.SIGALRM, handler)
+    signal.alarm(sec)
+    try:
+        return fn(*args)
+    finally:
+        signal.alarm(0)
+        signal.signal(signal.SIGALRM, old)
+
+
 # ---------------------------------------------------------------------------------------------------------------------
 # building the real pfst pattern
 
